@@ -635,3 +635,819 @@ Proof.
         assert (j <> n). { rewrite EnA. intros ->. destruct (hd_in_or r A) as [[E0 _]|I0]; [congruence|tauto]. }
         repeat match goal with |- context[Nat.eqb j ?y] => rewrite (proj2 (Nat.eqb_neq j y)) by assumption end. auto.
 Qed.
+
+(* ================= Part F: the operations ================= *)
+
+Lemma member_links h a x :
+  RRep h a -> In x (concat (ra_cycles a)) ->
+  rnx h x = Some (a_succ (ra_cycles a) x) /\ rpv h x = Some (a_pred (ra_cycles a) x) /\
+  In (a_succ (ra_cycles a) x) (concat (ra_cycles a)) /\ In (a_pred (ra_cycles a) x) (concat (ra_cycles a)).
+Proof.
+  intros R I. destruct (RRep_member _ _ _ R I) as (pre & post & p & q & Ecs & Ex & C & ND).
+  unfold a_succ, a_pred, ext. rewrite Ex. cbn [fst]. unfold c_next, c_prev. cbn [tl].
+  split; [eapply chain_first; eauto|]. split; [eapply chain_last; eauto|].
+  assert (Sub : forall y, y = x \/ In y (q ++ p) -> In y (concat (ra_cycles a))).
+  { intros y Hy. rewrite Ecs, concat_mid. apply in_or_app. right. apply in_or_app. left.
+    destruct Hy as [->|Hy]; [apply in_or_app; simpl; auto|].
+    apply in_app_iff in Hy as [Hy|Hy]; apply in_or_app; simpl; auto. }
+  split; apply Sub.
+  - destruct (hd_in_or x (q ++ p)) as [[-> _]|]; auto.
+  - destruct (last_in_or x (q ++ p)) as [[-> _]|]; auto.
+Qed.
+
+(* r.Next() / r.Prev() on a non-nil node: a zero Ring becomes a one-element ring, nothing else changes *)
+Lemma touch_sim2 h a x :
+  RRep h a -> x < length h ->
+  exists h', ring_Next (Some x) h = Ok (Some (a_succ (ra_cycles a) x), h') /\
+             ring_Prev (Some x) h = Ok (Some (a_pred (ra_cycles a) x), h') /\
+             RRep h' (RA (a_touch (ra_cycles a) x) (ra_vals a)) /\ length h' = length h /\
+             rnx h' x = Some (a_succ (ra_cycles a) x) /\ rpv h' x = Some (a_pred (ra_cycles a) x) /\
+             (forall j, j <> x -> rnx h' j = rnx h j /\ rpv h' j = rpv h j) /\
+             (forall j, rvl h' j = rvl h j) /\
+             (In x (concat (ra_cycles a)) -> h' = h).
+Proof.
+  intros R Hx. destruct (in_dec Nat.eq_dec x (concat (ra_cycles a))) as [I|N].
+  - exists h. destruct (touch_init _ _ _ R I) as (A & B & C).
+    destruct (member_links _ _ _ R I) as (L1 & L2 & _). repeat (split; auto).
+  - destruct (touch_zero _ _ _ R Hx N) as (A & B & C).
+    eexists. split; [exact A|]. split; [exact B|]. split; [exact C|].
+    assert (Ex : extract x (ra_cycles a) = None).
+    { destruct (extract x (ra_cycles a)) as [[c0 rest]|] eqn:E; auto. exfalso. apply N.
+      destruct (extract_Some _ _ _ _ E) as (pre & c1 & post & p & q & -> & _ & -> & _).
+      rewrite concat_mid. apply in_or_app. right. apply in_or_app. left. apply in_or_app. simpl; auto. }
+    unfold a_succ, a_pred, ext. rewrite Ex. cbn [fst]. unfold c_next, c_prev. cbn [tl hd last].
+    split; [now autorewrite with rheap|].
+    split; [autorewrite with rheap; rewrite Nat.eqb_refl; reflexivity|].
+    split; [autorewrite with rheap; rewrite Nat.eqb_refl; reflexivity|].
+    split.
+    { intros j Nj. autorewrite with rheap. apply Nat.eqb_neq in Nj. rewrite Nj. auto. }
+    split; [intro j; now autorewrite with rheap|]. tauto.
+Qed.
+
+Lemma rhnd_lt (t : list nat) k x (n : nat) : (forall e, In e t -> e < n) -> rhnd t k = Some x -> x < n.
+Proof. intros H E. apply H. unfold rhnd in E. destruct (k <? 0)%Z; [discriminate|]. eapply nth_error_In; eauto. Qed.
+
+(* r.Link(s) *)
+Lemma Link_sim h a r s :
+  RRep h a -> r < length h -> s < length h ->
+  exists h', ring_Link (Some r) (Some s) h = Ok (Some (a_succ (ra_cycles a) r), h') /\
+             RRep h' (RA (a_Link (ra_cycles a) r s) (ra_vals a)) /\ length h' = length h.
+Proof.
+  intros R Hr Hs.
+  destruct (touch_sim2 _ _ _ R Hr) as (h1 & E1 & _ & R1 & L1 & N1 & _ & _ & _ & _).
+  assert (Hs1 : s < length h1) by lia.
+  destruct (touch_sim2 _ _ _ R1 Hs1) as (h2 & _ & E2 & R2 & L2 & _ & P2 & F2 & _ & Same2).
+  cbn [ra_cycles ra_vals] in *.
+  unfold ring_Link. rewrite E1. cbn [bind]. rewrite E2. cbn [bind].
+  assert (Ir : In r (concat (a_touch (a_touch (ra_cycles a) r) s))) by (rewrite !in_a_touch; auto).
+  assert (Is : In s (concat (a_touch (a_touch (ra_cycles a) r) s))) by (rewrite !in_a_touch; auto).
+  assert (N2 : rnx h2 r = Some (a_succ (ra_cycles a) r)).
+  { destruct (Nat.eq_dec r s) as [->|Nrs].
+    - rewrite Same2; auto. rewrite in_a_touch. auto.
+    - destruct (F2 r Nrs) as [-> _]. exact N1. }
+  destruct (link_core h2 _ r s _ _ R2 Ir Is N2 P2) as (h3 & E3 & R3 & L3).
+  cbn [ra_cycles ra_vals] in *.
+  exists h3. split; [exact E3|]. split; [exact R3|]. lia.
+Qed.
+
+Lemma Link_nil_sim h a r :
+  RRep h a -> r < length h ->
+  exists h', ring_Link (Some r) None h = Ok (Some (a_succ (ra_cycles a) r), h') /\
+             RRep h' (RA (a_touch (ra_cycles a) r) (ra_vals a)) /\ length h' = length h.
+Proof.
+  intros R Hr. destruct (touch_sim2 _ _ _ R Hr) as (h1 & E1 & _ & R1 & L1 & _).
+  unfold ring_Link. rewrite E1. cbn [bind]. eauto.
+Qed.
+
+(* r.Move(n) *)
+Lemma iter_shift {A} (f : A -> A) k x : Nat.iter k f (f x) = f (Nat.iter k f x).
+Proof. induction k; simpl; congruence. Qed.
+
+Lemma move_loop_next h a : RRep h a -> forall k x, In x (concat (ra_cycles a)) ->
+  move_loop r_next k (Some x) h = Ok (Some (Nat.iter k (a_succ (ra_cycles a)) x)) /\
+  In (Nat.iter k (a_succ (ra_cycles a)) x) (concat (ra_cycles a)).
+Proof.
+  intros R. induction k as [|k IH]; intros x I; cbn [move_loop]; [auto|].
+  destruct (member_links _ _ _ R I) as (L1 & _ & I1 & _).
+  destruct (rhget_eq h x (RR_alloc _ _ R _ I)) as (c & -> & En & _). cbn [bind]. rewrite En, L1.
+  destruct (IH _ I1) as [E I2]. rewrite E. rewrite iter_shift in *. auto.
+Qed.
+
+Lemma move_loop_prev h a : RRep h a -> forall k x, In x (concat (ra_cycles a)) ->
+  move_loop r_prev k (Some x) h = Ok (Some (Nat.iter k (a_pred (ra_cycles a)) x)) /\
+  In (Nat.iter k (a_pred (ra_cycles a)) x) (concat (ra_cycles a)).
+Proof.
+  intros R. induction k as [|k IH]; intros x I; cbn [move_loop]; [auto|].
+  destruct (member_links _ _ _ R I) as (_ & L2 & _ & I1).
+  destruct (rhget_eq h x (RR_alloc _ _ R _ I)) as (c & -> & _ & Ep & _). cbn [bind]. rewrite Ep, L2.
+  destruct (IH _ I1) as [E I2]. rewrite E. rewrite iter_shift in *. auto.
+Qed.
+
+Lemma iter_fix {A} (f : A -> A) k x : f x = x -> Nat.iter k f x = x.
+Proof. intro H. induction k; simpl; congruence. Qed.
+
+Lemma ext_singleton x cs : ext ([x] :: cs) x = ([x], cs).
+Proof. unfold ext. cbn [extract]. unfold rot_to. cbn [split_at]. rewrite Nat.eqb_refl. reflexivity. Qed.
+
+Lemma Move_sim h a r n :
+  RRep h a -> r < length h ->
+  let cs1 := a_touch (ra_cycles a) r in
+  exists h', ring_Move (Some r) n h = Ok (Some (a_move cs1 r n), h') /\
+             RRep h' (RA cs1 (ra_vals a)) /\ length h' = length h /\
+             In (a_move cs1 r n) (concat cs1).
+Proof.
+  intros R Hr cs1.
+  assert (Ir1 : In r (concat cs1)) by (unfold cs1; rewrite in_a_touch; auto).
+  destruct (in_dec Nat.eq_dec r (concat (ra_cycles a))) as [I|N].
+  - (* initialised: nothing is written *)
+    destruct (touch_init _ _ _ R I) as (_ & _ & R1). fold cs1 in R1.
+    destruct (member_links _ _ _ R I) as (L1 & _).
+    destruct (rhget_eq h r Hr) as (c & Eg & En & _).
+    unfold ring_Move. rewrite Eg. cbn [bind]. rewrite En, L1. cbn [ptr_eqb option_eqb].
+    unfold a_move. exists h.
+    destruct (n <? 0)%Z.
+    + destruct (move_loop_prev _ _ R1 (Z.to_nat (- n)) r Ir1) as [E I2]. cbn [ra_cycles] in *.
+      rewrite E. cbn [bind]. auto.
+    + destruct (0 <? n)%Z eqn:Z0.
+      * destruct (move_loop_next _ _ R1 (Z.to_nat n) r Ir1) as [E I2]. cbn [ra_cycles] in *.
+        rewrite E. cbn [bind]. auto.
+      * assert (Z.to_nat n = 0) by (apply Z.ltb_ge in Z0; lia). rewrite H. cbn [Nat.iter]. auto.
+  - (* zero Ring: r.init(), whatever n *)
+    destruct (touch_zero _ _ _ R Hr N) as (E & _ & R1). fold cs1 in R1.
+    destruct (RR_zero _ _ R r N) as [Zn _].
+    destruct (rhget_eq h r Hr) as (c & Eg & En & _).
+    unfold ring_Move. unfold ring_Next in E. rewrite Eg in *. cbn [bind] in *. rewrite En, Zn in *.
+    cbn [ptr_eqb option_eqb] in *. rewrite E.
+    assert (S1 : a_succ cs1 r = r /\ a_pred cs1 r = r).
+    { assert (Ex : extract r (ra_cycles a) = None).
+      { destruct (extract r (ra_cycles a)) as [[c0 rest]|] eqn:E0; auto. exfalso. apply N.
+        destruct (extract_Some _ _ _ _ E0) as (pre & c1 & post & p & q & -> & _ & -> & _).
+        rewrite concat_mid. apply in_or_app. right. apply in_or_app. left. apply in_or_app. simpl; auto. }
+      assert (E1 : ext (ra_cycles a) r = ([r], ra_cycles a)) by (unfold ext; rewrite Ex; reflexivity).
+      unfold cs1, a_touch, a_succ, a_pred. rewrite E1, ext_singleton. cbn. auto. }
+    assert (M : a_move cs1 r n = r).
+    { unfold a_move. destruct (n <? 0)%Z; apply iter_fix; tauto. }
+    rewrite M.
+    assert (As : a_succ (ra_cycles a) r = r).
+    { unfold a_succ, ext.
+      destruct (extract r (ra_cycles a)) as [[c0 rest]|] eqn:E0; [|reflexivity]. exfalso. apply N.
+      destruct (extract_Some _ _ _ _ E0) as (pre & c1 & post & p & q & -> & _ & -> & _).
+      rewrite concat_mid. apply in_or_app. right. apply in_or_app. left. apply in_or_app. simpl; auto. }
+    rewrite As. eexists. split; [reflexivity|]. split; [exact R1|]. split; [now autorewrite with rheap|]. exact Ir1.
+Qed.
+
+Lemma ext_hd cs x : exists A rest, ext cs x = (x :: A, rest).
+Proof.
+  unfold ext. destruct (extract x cs) as [[c rest]|] eqn:E; [|eauto].
+  destruct (extract_Some _ _ _ _ E) as (pre & c1 & post & p & q & _ & -> & _ & ->). eauto.
+Qed.
+
+Lemma ext_cons_self x A rest : ext ((x :: A) :: rest) x = (x :: A, rest).
+Proof.
+  unfold ext. cbn [extract]. unfold rot_to. cbn [split_at]. rewrite Nat.eqb_refl, app_nil_r. reflexivity.
+Qed.
+
+Lemma ext_a_touch cs x : ext (a_touch cs x) x = ext cs x.
+Proof.
+  unfold a_touch. destruct (ext_hd cs x) as (A & rest & E). rewrite E. apply ext_cons_self.
+Qed.
+
+Lemma a_succ_touch cs x : a_succ (a_touch cs x) x = a_succ cs x.
+Proof. unfold a_succ. rewrite ext_a_touch. reflexivity. Qed.
+
+(* the cycle of an initialised node as the specification sees it *)
+Lemma RRep_cycle h a x :
+  RRep h a -> In x (concat (ra_cycles a)) ->
+  exists A, fst (ext (ra_cycles a) x) = x :: A /\ chain (rnx h) (rpv h) x A x /\ NoDup (x :: A) /\
+            forall y, In y (x :: A) -> y < length h.
+Proof.
+  intros R I. destruct (RRep_member _ _ _ R I) as (pre & post & p & q & Ecs & Ex & C & ND).
+  exists (q ++ p). unfold ext. rewrite Ex. cbn [fst]. repeat split; auto.
+  intros y Hy. apply (RR_alloc _ _ R). rewrite Ecs, concat_mid. apply in_or_app. right. apply in_or_app. left.
+  destruct Hy as [<-|Hy]; [apply in_or_app; simpl; auto|].
+  apply in_app_iff in Hy as [Hy|Hy]; apply in_or_app; simpl; auto.
+Qed.
+
+Lemma Unlink_sim h a r n :
+  RRep h a -> r < length h -> (0 < n)%Z ->
+  let cs1 := a_touch (ra_cycles a) r in
+  exists h', ring_Unlink (Some r) n h = Ok (Some (a_succ cs1 r), h') /\
+             RRep h' (RA (a_Link cs1 r (a_move cs1 r (n + 1))) (ra_vals a)) /\ length h' = length h.
+Proof.
+  intros R Hr Hn cs1. unfold ring_Unlink.
+  replace (n <=? 0)%Z with false by (symmetry; apply Z.leb_gt; lia).
+  destruct (Move_sim h a r (n + 1) R Hr) as (h1 & E1 & R1 & L1 & I1). fold cs1 in E1, R1, I1.
+  rewrite E1. cbn [bind].
+  assert (Hm : a_move cs1 r (n + 1) < length h1) by (apply (RR_alloc _ _ R1); exact I1).
+  assert (Hr1 : r < length h1) by lia.
+  destruct (Link_sim h1 _ r _ R1 Hr1 Hm) as (h2 & E2 & R2 & L2). cbn [ra_cycles ra_vals] in *.
+  exists h2. split; [exact E2|]. split; [exact R2|]. lia.
+Qed.
+
+(* r.Len() and r.Do(f) *)
+Lemma len_loop_sim (h : rheap) r A :
+  chain (rnx h) (rpv h) r A r -> NoDup (r :: A) -> (forall y, In y A -> y < length h) ->
+  forall suf pre fuel acc, A = pre ++ suf -> length suf <= fuel ->
+  len_loop fuel (Some r) (Some (hd r suf)) acc h = Ok (acc + Z.of_nat (length suf))%Z.
+Proof.
+  intros C D B. induction suf as [|y t IH]; intros pre fuel acc E L.
+  - cbn [hd]. destruct fuel; cbn [len_loop]; rewrite (proj2 (ptr_eqb_eq (Some r) (Some r)) eq_refl);
+      simpl; f_equal; lia.
+  - destruct fuel as [|f]; [simpl in L; lia|]. cbn [hd len_loop].
+    assert (Ny : y <> r).
+    { intros ->. apply NoDup_cons_iff in D as [N _]. apply N. rewrite E. apply in_or_app. simpl; auto. }
+    rewrite (proj2 (ptr_eqb_neq (Some y) (Some r))) by congruence.
+    assert (Hy : y < length h) by (apply B; rewrite E; apply in_or_app; simpl; auto).
+    destruct (rhget_eq h y Hy) as (c & -> & En & _). cbn [bind]. rewrite En.
+    rewrite E in C. destruct (chain_at _ _ _ _ _ _ _ C) as [-> _].
+    rewrite (IH (pre ++ [y]) f); [f_equal; simpl length; lia| |simpl in L; lia].
+    rewrite <- app_assoc. exact E.
+Qed.
+
+Lemma do_loop_sim (h : rheap) r A :
+  chain (rnx h) (rpv h) r A r -> NoDup (r :: A) -> (forall y, In y A -> y < length h) ->
+  forall suf pre fuel, A = pre ++ suf -> length suf <= fuel ->
+  do_loop fuel (Some r) (Some (hd r suf)) h = Ok (map (rvl h) suf).
+Proof.
+  intros C D B. induction suf as [|y t IH]; intros pre fuel E L.
+  - cbn [hd]. destruct fuel; cbn [do_loop]; rewrite (proj2 (ptr_eqb_eq (Some r) (Some r)) eq_refl); reflexivity.
+  - destruct fuel as [|f]; [simpl in L; lia|]. cbn [hd do_loop].
+    assert (Ny : y <> r).
+    { intros ->. apply NoDup_cons_iff in D as [N _]. apply N. rewrite E. apply in_or_app. simpl; auto. }
+    rewrite (proj2 (ptr_eqb_neq (Some y) (Some r))) by congruence.
+    assert (Hy : y < length h) by (apply B; rewrite E; apply in_or_app; simpl; auto).
+    destruct (rhget_eq h y Hy) as (c & -> & En & _ & Ev). cbn [bind]. rewrite En, Ev.
+    rewrite E in C. destruct (chain_at _ _ _ _ _ _ _ C) as [-> _].
+    rewrite (IH (pre ++ [y]) f); [reflexivity| |simpl in L; lia].
+    rewrite <- app_assoc. exact E.
+Qed.
+
+Lemma RRep_rvl h a y : RRep h a -> y < length h -> rvl h y = ra_val a y.
+Proof.
+  intros R H. destruct (RR_vals _ _ R) as [_ V]. specialize (V y H).
+  unfold ra_val. apply nth_error_nth with (d := 0%Z) in V. auto.
+Qed.
+
+Lemma LenDo_sim h a r :
+  RRep h a -> r < length h ->
+  exists h', ring_Len (Some r) h = Ok (Z.of_nat (length (fst (ext (ra_cycles a) r))), h') /\
+             ring_Do (Some r) h = Ok (map (ra_val a) (fst (ext (ra_cycles a) r)), h') /\
+             RRep h' (RA (a_touch (ra_cycles a) r) (ra_vals a)) /\ length h' = length h.
+Proof.
+  intros R Hr.
+  destruct (touch_sim2 _ _ _ R Hr) as (h1 & E1 & _ & R1 & L1 & N1 & _ & _ & V1 & _).
+  assert (Ir1 : In r (concat (a_touch (ra_cycles a) r))) by (rewrite in_a_touch; auto).
+  destruct (RRep_cycle _ _ _ R1 Ir1) as (A & EA & C & ND & B). cbn [ra_cycles] in *.
+  rewrite ext_a_touch in EA.
+  assert (Es : a_succ (ra_cycles a) r = hd r A).
+  { rewrite (chain_first _ _ _ _ _ C) in N1. congruence. }
+  assert (BA : forall y, In y A -> y < length h1) by (intros y Hy; apply B; simpl; auto).
+  assert (LA : length A <= length h1).
+  { apply NoDup_cons_iff in ND as [_ ND]. apply NoDup_bound; auto. }
+  exists h1. split; [|split; [|split; [exact R1|exact L1]]].
+  - unfold ring_Len. rewrite E1. cbn [bind]. rewrite Es.
+    rewrite (len_loop_sim h1 r A C ND BA A [] (length h1) 1%Z eq_refl LA). cbn [bind].
+    rewrite EA. simpl length. do 2 f_equal. lia.
+  - unfold ring_Do. destruct (rhget_eq h r Hr) as (c & -> & _ & _ & Ev). cbn [bind].
+    rewrite E1. cbn [bind]. rewrite Es.
+    rewrite (do_loop_sim h1 r A C ND BA A [] (length h1) eq_refl LA). cbn [bind].
+    rewrite EA, Ev. cbn [map].
+    replace (rvl h r) with (ra_val a r) by (rewrite <- V1; symmetry; apply (RRep_rvl _ _ _ R1); lia).
+    replace (map (rvl h1) A) with (map (ra_val a) A); [reflexivity|].
+    apply map_ext_in. intros y Hy. symmetry. apply (RRep_rvl _ _ _ R1). auto.
+Qed.
+
+(* &Ring{Value: v} *)
+Lemma rnx_alloc_zero (h : rheap) v j : rnx (h ++ [RCell None None v]) j = rnx h j.
+Proof.
+  unfold rnx. rewrite rproj_alloc. destruct (Nat.eqb_spec j (length h)) as [->|]; auto.
+  rewrite rproj_out; auto.
+Qed.
+Lemma rpv_alloc_zero (h : rheap) v j : rpv (h ++ [RCell None None v]) j = rpv h j.
+Proof.
+  unfold rpv. rewrite rproj_alloc. destruct (Nat.eqb_spec j (length h)) as [->|]; auto.
+  rewrite rproj_out; auto.
+Qed.
+
+Lemma Zero_sim h a v :
+  RRep h a -> RRep (h ++ [RCell None None v]) (RA (ra_cycles a) (ra_vals a ++ [v])).
+Proof.
+  intro R. destruct (RR_vals _ _ R) as [V1 V2].
+  apply (RRep_replace h a _ (ra_vals a ++ [v]) [] (ra_cycles a) [] []); auto.
+  - rewrite app_length. simpl. lia.
+  - rewrite !app_length. simpl. split; [lia|].
+    intros j Hj. unfold rvl. rewrite rproj_alloc, nth_error_alloc, <- V1.
+    destruct (Nat.eqb_spec j (length h)); auto. apply V2. lia.
+  - constructor.
+  - intros j [].
+  - intros c [].
+  - intros j _. rewrite rnx_alloc_zero, rpv_alloc_zero. auto.
+Qed.
+
+(* ---- NewRing(n) ---- *)
+
+(* a -> x1 -> ... -> xn linked both ways, open at both ends *)
+Fixpoint lpath (nx pv : nat -> ptr) (a : nat) (xs : list nat) : Prop :=
+  match xs with
+  | [] => True
+  | x :: t => nx a = Some x /\ pv x = Some a /\ lpath nx pv x t
+  end.
+
+Lemma lpath_snoc nx pv a xs q :
+  lpath nx pv a (xs ++ [q]) <-> lpath nx pv a xs /\ nx (last xs a) = Some q /\ pv q = Some (last xs a).
+Proof.
+  revert a; induction xs as [|x t IH]; intro a.
+  - simpl. tauto.
+  - rewrite last_cons. cbn [app lpath]. rewrite IH. tauto.
+Qed.
+
+Lemma chain_of_lpath nx pv a xs b :
+  lpath nx pv a xs -> nx (last xs a) = Some b -> pv b = Some (last xs a) -> chain nx pv a xs b.
+Proof.
+  revert a; induction xs as [|x t IH]; intros a L E1 E2.
+  - simpl in *. auto.
+  - rewrite last_cons in *. destruct L as (L1 & L2 & L3). cbn [chain]. auto.
+Qed.
+
+Lemma lpath_frame nx pv nx' pv' a xs :
+  (forall x, x = a \/ In x xs -> x <> last xs a -> nx' x = nx x) ->
+  (forall x, In x xs -> pv' x = pv x) ->
+  NoDup (a :: xs) ->
+  lpath nx pv a xs -> lpath nx' pv' a xs.
+Proof.
+  revert a; induction xs as [|x t IH]; intros a Hn Hp D L; [exact I|].
+  destruct L as (L1 & L2 & L3). rewrite last_cons in Hn.
+  apply NoDup_cons_iff in D as [Na D]. cbn [lpath]. repeat split.
+  - rewrite Hn; auto. intros E. apply Na. rewrite E. destruct (last_in_or x t) as [[-> _]|I]; simpl; auto.
+  - rewrite Hp; simpl; auto.
+  - apply IH; auto.
+    + intros y Hy Ny. apply Hn; auto. simpl. destruct Hy; auto.
+    + intros y Hy. apply Hp. simpl; auto.
+Qed.
+
+Lemma last_seq a n d : last (seq a n) d = match n with O => d | S m => a + m end.
+Proof.
+  revert a d; induction n as [|n IH]; intros a d; [reflexivity|].
+  cbn [seq]. rewrite last_cons, IH. destruct n; simpl; lia.
+Qed.
+
+Lemma NoDup_seq_cons r0 n : NoDup (r0 :: seq (S r0) n).
+Proof. change (r0 :: seq (S r0) n) with (seq r0 (S n)). apply seq_NoDup. Qed.
+
+Lemma rproj_alloc_other {A} (g : rcell -> A) d (h : rheap) c j : j <> length h -> rproj g d (h ++ [c]) j = rproj g d h j.
+Proof. intro N. rewrite rproj_alloc. apply Nat.eqb_neq in N. rewrite N. reflexivity. Qed.
+
+(* for i := 1; i < n; i++ { p.next = &Ring{prev: p}; p = p.next } *)
+Lemma newring_loop_sim r0 : forall k (h0 : rheap) m,
+  length h0 = r0 + 1 + m ->
+  lpath (rnx h0) (rpv h0) r0 (seq (S r0) m) ->
+  exists h', newring_loop k (Some (last (seq (S r0) m) r0)) h0 = Ok (Some (last (seq (S r0) (m + k)) r0), h') /\
+    length h' = r0 + 1 + (m + k) /\
+    lpath (rnx h') (rpv h') r0 (seq (S r0) (m + k)) /\
+    (forall j, j < r0 -> rnx h' j = rnx h0 j /\ rpv h' j = rpv h0 j) /\
+    rpv h' r0 = rpv h0 r0 /\
+    (forall j, rvl h' j = rvl h0 j).
+Proof.
+  induction k as [|k IH]; intros h0 m L P.
+  - rewrite Nat.add_0_r. exists h0. cbn [newring_loop]. repeat split; auto.
+  - cbn [newring_loop halloc].
+    set (p := last (seq (S r0) m) r0).
+    assert (Hp : p < length h0). { unfold p. rewrite last_seq. destruct m; lia. }
+    assert (Hpq : p <> length h0) by lia.
+    set (q := length h0).
+    set (h1 := h0 ++ [RCell None (Some p) 0]).
+    assert (L1 : length h1 = S (length h0)) by (unfold h1; rewrite app_length; simpl; lia).
+    rewrite rhupd_eq by lia. cbn [bind].
+    set (h2 := map_nth (set_rnext (Some q)) p h1).
+    assert (L2 : length h2 = S (length h0)) by (unfold h2; rewrite length_map_nth; lia).
+    destruct (rhget_eq h2 p ltac:(lia)) as (c & -> & En & _). cbn [bind].
+    assert (N2 : forall j, rnx h2 j = if Nat.eqb j p then Some q else if Nat.eqb j q then None else rnx h0 j).
+    { intro j. unfold h2. rewrite rnx_set_next by lia. destruct (Nat.eqb j p); auto.
+      unfold h1, rnx. rewrite rproj_alloc. reflexivity. }
+    assert (P2 : forall j, rpv h2 j = if Nat.eqb j q then Some p else rpv h0 j).
+    { intro j. unfold h2. rewrite rpv_set_next by lia. unfold h1, rpv. rewrite rproj_alloc. reflexivity. }
+    assert (V2 : forall j, rvl h2 j = rvl h0 j).
+    { intro j. unfold h2. rewrite rvl_set_next by lia. unfold h1, rvl. rewrite rproj_alloc.
+      destruct (Nat.eqb_spec j (length h0)) as [->|]; auto. rewrite rproj_out; auto. }
+    rewrite En, N2, Nat.eqb_refl.
+    assert (Eq : Some q = Some (last (seq (S r0) (S m)) r0)).
+    { rewrite last_seq. unfold q. f_equal. lia. }
+    rewrite Eq.
+    assert (Pth : lpath (rnx h2) (rpv h2) r0 (seq (S r0) (S m))).
+    { rewrite seq_S. apply lpath_snoc. fold p. split; [|split].
+      - eapply lpath_frame; [| |apply NoDup_seq_cons|exact P].
+        + intros x Hx Nx. fold p in Nx. rewrite N2.
+          apply Nat.eqb_neq in Nx. rewrite Nx.
+          assert (x <> q). { unfold q. destruct Hx as [->|Hx]; [lia|]. apply in_seq in Hx. lia. }
+          apply Nat.eqb_neq in H. rewrite H. reflexivity.
+        + intros x Hx. rewrite P2. assert (x <> q) by (unfold q; apply in_seq in Hx; lia).
+          apply Nat.eqb_neq in H. rewrite H. reflexivity.
+      - rewrite N2, Nat.eqb_refl. f_equal. unfold q. lia.
+      - rewrite P2. replace (S r0 + m) with q by (unfold q; lia). rewrite Nat.eqb_refl. reflexivity. }
+    destruct (IH h2 (S m)) as (h' & E' & L' & P' & F' & R0' & V'); [lia|exact Pth|].
+    replace (S m + k) with (m + S k) in * by lia.
+    exists h'. rewrite E'. split; [reflexivity|]. split; [lia|]. split; [exact P'|].
+    split; [|split].
+    + intros j Hj. destruct (F' j Hj) as [-> ->]. rewrite N2, P2.
+      assert (j <> p) by (unfold p; rewrite last_seq; destruct m; lia).
+      assert (j <> q) by (unfold q; lia).
+      apply Nat.eqb_neq in H, H0. rewrite H, H0. auto.
+    + rewrite R0', P2. assert (r0 <> q) by (unfold q; lia). apply Nat.eqb_neq in H. rewrite H. reflexivity.
+    + intro j. rewrite V'. apply V2.
+Qed.
+
+Lemma nth_error_repeat {A} (x : A) n j : nth_error (repeat x n) j = if j <? n then Some x else None.
+Proof.
+  revert j; induction n as [|n IH]; intros [|j]; simpl; auto. rewrite IH.
+  destruct (Nat.ltb_spec j n), (Nat.ltb_spec (S j) (S n)); auto; lia.
+Qed.
+
+Lemma New_sim h a n :
+  RRep h a -> (0 < n)%Z ->
+  let r0 := length h in
+  let k := Z.to_nat n in
+  exists h', ring_New n h = Ok (Some r0, h') /\
+             RRep h' (RA (seq r0 k :: ra_cycles a) (ra_vals a ++ repeat 0%Z k)) /\ length h' = r0 + k.
+Proof.
+  intros R Hn r0 k. unfold ring_New.
+  replace (n <=? 0)%Z with false by (symmetry; apply Z.leb_gt; lia).
+  cbn [halloc]. fold r0. set (h0 := h ++ [RCell None None 0%Z]).
+  assert (L0 : length h0 = r0 + 1 + 0) by (unfold h0, r0; rewrite app_length; simpl; lia).
+  destruct (newring_loop_sim r0 (Z.to_nat (n - 1)) h0 0 L0 I) as (h1 & E1 & L1 & P1 & F1 & R01 & V1).
+  cbn [seq last] in E1. rewrite E1. cbn [bind]. cbn [Nat.add] in *.
+  set (k' := Z.to_nat (n - 1)) in *. assert (Ek : k = S k') by (unfold k, k'; lia).
+  set (p := last (seq (S r0) k') r0) in *.
+  assert (Hp : p < length h1) by (unfold p; rewrite last_seq; destruct k'; lia).
+  rewrite rhupd_eq by lia. cbn [bind]. rewrite rhupd_eq by rsize_tac. cbn [bind].
+  set (h' := map_nth (set_rprev (Some p)) r0 (map_nth (set_rnext (Some r0)) p h1)).
+  assert (L' : length h' = r0 + k) by (unfold h'; rewrite !length_map_nth; lia).
+  assert (N' : forall j, rnx h' j = if Nat.eqb j p then Some r0 else rnx h1 j).
+  { intro j. unfold h'. now autorewrite with rheap. }
+  assert (P' : forall j, rpv h' j = if Nat.eqb j r0 then Some p else rpv h1 j).
+  { intro j. unfold h'. now autorewrite with rheap. }
+  assert (V' : forall j, rvl h' j = rvl h0 j).
+  { intro j. unfold h'. autorewrite with rheap. apply V1. }
+  exists h'. split; [reflexivity|]. split; [|exact L'].
+  assert (C : chain (rnx h') (rpv h') r0 (seq (S r0) k') r0).
+  { apply chain_of_lpath.
+    - eapply lpath_frame; [| |apply NoDup_seq_cons|exact P1].
+      + intros x Hx Nx. fold p in Nx. rewrite N'. apply Nat.eqb_neq in Nx. rewrite Nx. reflexivity.
+      + intros x Hx. rewrite P'. assert (x <> r0) by (apply in_seq in Hx; lia).
+        apply Nat.eqb_neq in H. rewrite H. reflexivity.
+    - fold p. rewrite N', Nat.eqb_refl. reflexivity.
+    - fold p. rewrite P', Nat.eqb_refl. reflexivity. }
+  destruct (RR_vals _ _ R) as [Vl1 Vl2].
+  change (seq r0 k :: ra_cycles a) with ([seq r0 k] ++ ra_cycles a).
+  apply (RRep_replace h a h' _ [] (ra_cycles a) (seq r0 k) [seq r0 k]); auto.
+  - lia.
+  - rewrite app_length, repeat_length. split; [unfold r0 in *; lia|].
+    intros j Hj. rewrite V'. unfold h0, rvl. rewrite rproj_alloc. fold r0.
+    destruct (Nat.lt_ge_cases j r0) as [Lt|Ge].
+    + rewrite nth_error_app1 by (unfold r0 in *; lia).
+      replace (j =? r0) with false by (symmetry; apply Nat.eqb_neq; lia). apply Vl2. exact Lt.
+    + rewrite nth_error_app2 by (unfold r0 in *; lia). rewrite nth_error_repeat.
+      replace (j - length (ra_vals a) <? k) with true by (symmetry; apply Nat.ltb_lt; unfold r0 in *; lia).
+      destruct (Nat.eqb_spec j r0); [reflexivity|]. rewrite rproj_out by (fold r0; lia). reflexivity.
+  - apply seq_NoDup.
+  - intros j Hj. apply in_seq in Hj. split; [|lia].
+    intro X. apply (RR_alloc _ _ R) in X. fold r0 in X. lia.
+  - intros c [<-|[]]. exists r0, (seq (S r0) k'). rewrite Ek. split; [reflexivity|exact C].
+  - intros j Nj. rewrite app_nil_r in Nj. rewrite in_seq in Nj. rewrite N', P'.
+    destruct (Nat.lt_ge_cases j r0) as [Lt|Ge].
+    + assert (j <> p) by (unfold p; rewrite last_seq; destruct k'; lia).
+      assert (j <> r0) by lia. apply Nat.eqb_neq in H, H0. rewrite H, H0.
+      destruct (F1 j Lt) as [-> ->]. unfold h0. rewrite rnx_alloc_zero, rpv_alloc_zero. auto.
+    + assert (j >= r0 + k) by lia.
+      assert (j <> p) by (unfold p; rewrite last_seq; destruct k'; lia).
+      assert (j <> r0) by lia. apply Nat.eqb_neq in H0, H1. rewrite H0, H1.
+      unfold rnx, rpv. rewrite !rproj_out by (fold r0; lia). auto.
+Qed.
+
+(* the harness's value assignment: p := r; for i := 0; i < n; i++ { p.Value = v0 + i; p = p.Next() } *)
+Lemma ring_Next_init (h : rheap) y z : y < length h -> rnx h y = Some z -> ring_Next (Some y) h = Ok (Some z, h).
+Proof.
+  intros Hy E. unfold ring_Next. destruct (rhget_eq h y Hy) as (c & -> & En & _). cbn [bind].
+  rewrite En, E. reflexivity.
+Qed.
+
+Lemma setvals_sim r0 n : forall k i (h : rheap) v,
+  i + k = n -> length h = r0 + n ->
+  (forall j, j < n -> exists z, rnx h (r0 + j) = Some z /\ (S j < n -> z = r0 + S j)) ->
+  exists h', setvals_loop k (Some (r0 + i)) v h = Ok h' /\ length h' = length h /\
+    (forall j, rnx h' j = rnx h j /\ rpv h' j = rpv h j) /\
+    (forall j, rvl h' j = if (r0 + i <=? j) && (j <? r0 + n) then (v + Z.of_nat (j - (r0 + i)))%Z else rvl h j).
+Proof.
+  induction k as [|k IH]; intros i h v E L Hn.
+  - exists h. cbn [setvals_loop]. repeat split; auto. intro j.
+    replace ((r0 + i <=? j) && (j <? r0 + n)) with false; auto.
+    symmetry. apply andb_false_iff. destruct (Nat.leb_spec (r0 + i) j); auto. right. apply Nat.ltb_ge. lia.
+  - cbn [setvals_loop]. rewrite rhupd_eq by lia. cbn [bind].
+    set (h1 := map_nth (set_rval v) (r0 + i) h).
+    assert (L1 : length h1 = length h) by (unfold h1; apply length_map_nth).
+    destruct (Hn i ltac:(lia)) as (z & Ez & Hz).
+    rewrite (ring_Next_init h1 (r0 + i) z) by (try lia; unfold h1; rewrite rnx_set_val by lia; exact Ez).
+    cbn [bind].
+    destruct k as [|k'].
+    + (* last iteration: the pointer is not used any more *)
+      cbn [setvals_loop]. exists h1. split; [reflexivity|]. split; [exact L1|]. split.
+      * intro j. unfold h1. now autorewrite with rheap.
+      * intro j. unfold h1. rewrite rvl_set_val by lia.
+        destruct (Nat.eqb_spec j (r0 + i)) as [->|N].
+        -- replace ((r0 + i <=? r0 + i) && (r0 + i <? r0 + n)) with true
+             by (symmetry; apply andb_true_iff; split; [apply Nat.leb_le|apply Nat.ltb_lt]; lia).
+           rewrite Nat.sub_diag. simpl. f_equal. lia.
+        -- replace ((r0 + i <=? j) && (j <? r0 + n)) with false; auto.
+           symmetry. apply andb_false_iff. destruct (Nat.leb_spec (r0 + i) j); auto. right. apply Nat.ltb_ge. lia.
+    + rewrite (Hz ltac:(lia)).
+      destruct (IH (S i) h1 (v + 1)%Z) as (h' & E' & L' & F' & V'); [lia|lia| |].
+      { intros j Hj. destruct (Hn j Hj) as (z' & Ez' & Hz'). exists z'. split; auto.
+        unfold h1. rewrite rnx_set_val by lia. exact Ez'. }
+      replace (r0 + S i) with (r0 + S i) in E' by lia. rewrite E'.
+      exists h'. split; [reflexivity|]. split; [lia|]. split.
+      * intro j. destruct (F' j) as [-> ->]. unfold h1. now autorewrite with rheap.
+      * intro j. rewrite V'. unfold h1. rewrite rvl_set_val by lia.
+        destruct (Nat.eqb_spec j (r0 + i)) as [->|N].
+        -- replace ((r0 + S i <=? r0 + i) && (r0 + i <? r0 + n)) with false
+             by (symmetry; apply andb_false_iff; left; apply Nat.leb_gt; lia).
+           replace ((r0 + i <=? r0 + i) && (r0 + i <? r0 + n)) with true
+             by (symmetry; apply andb_true_iff; split; [apply Nat.leb_le|apply Nat.ltb_lt]; lia).
+           rewrite Nat.sub_diag. simpl. lia.
+        -- destruct (Nat.leb_spec (r0 + S i) j), (Nat.leb_spec (r0 + i) j), (Nat.ltb_spec j (r0 + n));
+             cbn [andb]; auto; try lia.
+Qed.
+
+Lemma zseq_length v n : length (zseq v n) = n.
+Proof. revert v; induction n; intro v; simpl; auto. Qed.
+
+Lemma nth_error_zseq v n j : j < n -> nth_error (zseq v n) j = Some (v + Z.of_nat j)%Z.
+Proof.
+  revert v j; induction n as [|n IH]; intros v [|j] H; simpl; try lia.
+  - f_equal. lia.
+  - rewrite IH by lia. f_equal. lia.
+Qed.
+
+Lemma seq_chain_next nx pv r0 k' :
+  chain nx pv r0 (seq (S r0) k') r0 ->
+  forall j, j < S k' -> exists z, nx (r0 + j) = Some z /\ (S j < S k' -> z = r0 + S j).
+Proof.
+  intros C j Hj. destruct j as [|j].
+  - rewrite Nat.add_0_r. exists (hd r0 (seq (S r0) k')). split; [eapply chain_first; eauto|].
+    intro H. destruct k'; [lia|]. simpl. lia.
+  - assert (E : seq (S r0) k' = seq (S r0) j ++ (r0 + S j) :: seq (S (r0 + S j)) (k' - S j)).
+    { replace k' with (j + S (k' - S j)) at 1 by lia. rewrite seq_app. cbn [seq]. replace (S r0 + j) with (r0 + S j) by lia. reflexivity. }
+    rewrite E in C. destruct (chain_at _ _ _ _ _ _ _ C) as [En _].
+    eexists. split; [exact En|]. intro H. destruct (k' - S j) eqn:Ek; [lia|]. simpl. lia.
+Qed.
+
+Lemma RNew_sim h a n v0 :
+  RRep h a -> (0 < n)%Z ->
+  exists h', (do (r, h) <- ring_New n h; do h <- setvals_loop (Z.to_nat n) r v0 h; Ok (r, h)) = Ok (Some (rfresh a), h') /\
+             RRep h' (RA (seq (rfresh a) (Z.to_nat n) :: ra_cycles a) (ra_vals a ++ zseq v0 (Z.to_nat n))) /\
+             length h <= length h'.
+Proof.
+  intros R Hn. destruct (New_sim h a n R Hn) as (h1 & E1 & R1 & L1). cbn zeta in *.
+  destruct (RR_vals _ _ R) as [Vl1 Vl2].
+  assert (Ef : rfresh a = length h) by (unfold rfresh; lia). rewrite Ef.
+  set (r0 := length h) in *. set (k := Z.to_nat n) in *.
+  rewrite E1. cbn [bind].
+  assert (Ek : exists k', k = S k') by (exists (Z.to_nat (n - 1)); unfold k; lia).
+  destruct Ek as (k' & Ek).
+  assert (C : chain (rnx h1) (rpv h1) r0 (seq (S r0) k') r0).
+  { destruct (RR_cyc _ _ R1 (seq r0 k)) as (x & t & E & C); [simpl; auto|].
+    rewrite Ek in E. cbn [seq] in E. injection E as <- <-. exact C. }
+  destruct (setvals_sim r0 k k 0 h1 v0 eq_refl L1) as (h2 & E2 & L2 & F2 & V2).
+  { rewrite Ek. apply (seq_chain_next _ _ _ _ C). }
+  rewrite Nat.add_0_r in E2, V2. rewrite E2. cbn [bind].
+  exists h2. split; [reflexivity|]. split; [|lia].
+  change (seq r0 k :: ra_cycles a) with ([] ++ (seq r0 k :: ra_cycles a)).
+  apply (RRep_replace h1 (RA (seq r0 k :: ra_cycles a) (ra_vals a ++ repeat 0%Z k)) h2 _ [] (seq r0 k :: ra_cycles a) [] []); auto; cbn [ra_cycles ra_vals].
+  - lia.
+  - rewrite app_length, zseq_length. split; [unfold r0 in *; lia|].
+    intros j Hj. rewrite V2.
+    destruct (RR_vals _ _ R1) as [_ W]. cbn [ra_vals] in W. specialize (W j ltac:(lia)).
+    destruct (Nat.lt_ge_cases j r0) as [Lt|Ge].
+    + replace ((r0 <=? j) && (j <? r0 + k)) with false
+        by (symmetry; apply andb_false_iff; left; apply Nat.leb_gt; lia).
+      rewrite nth_error_app1 in * by (unfold r0 in *; lia). exact W.
+    + replace ((r0 <=? j) && (j <? r0 + k)) with true
+        by (symmetry; apply andb_true_iff; split; [apply Nat.leb_le|apply Nat.ltb_lt]; lia).
+      rewrite nth_error_app2 by (unfold r0 in *; lia).
+      rewrite nth_error_zseq by (unfold r0 in *; lia). do 2 f_equal. unfold r0 in *. lia.
+  - constructor.
+  - intros j [].
+  - intros c [].
+Qed.
+
+(* ================= Part G: histories ================= *)
+
+Definition RHok (h : rheap) (t : list nat) : Prop := forall e, In e t -> e < length h.
+
+Lemma RHok_add (h : rheap) t p : RHok h t -> (forall e, p = Some e -> e < length h) -> RHok h (radd_handle t p).
+Proof.
+  intros H P. destruct p as [e|]; simpl; auto.
+  destruct (existsb (Nat.eqb e) t); auto.
+  intros x I. apply in_app_iff in I as [I|[<-|[]]]; auto.
+Qed.
+
+Lemma RHok_mono (h h' : rheap) t : length h <= length h' -> RHok h t -> RHok h' t.
+Proof. intros L H e I. specialize (H e I). lia. Qed.
+
+Theorem rexec_sim op h a t :
+  RRep h a -> RHok h t ->
+  exists h', rstep op (RRState h t) = (fst (fst (rspec_exec op a t)), RRState h' (snd (rspec_exec op a t))) /\
+             RRep h' (snd (fst (rspec_exec op a t))) /\ RHok h' (snd (rspec_exec op a t)).
+Proof.
+  intros R HK. unfold rstep, rexec. cbn [rh rhs].
+  destruct op; cbn [rspec_exec].
+  - (* RZero *)
+    cbn [halloc]. unfold rret_ptr, rs_ret. cbn [bind fst snd].
+    assert (Ef : rfresh a = length h) by (unfold rfresh; destruct (RR_vals _ _ R); lia). rewrite Ef.
+    eexists. split; [reflexivity|]. split; [apply Zero_sim; exact R|].
+    apply RHok_add.
+    + eapply RHok_mono; [|exact HK]. rewrite app_length. simpl. lia.
+    + intros e E; injection E as <-. rewrite app_length. simpl. lia.
+  - (* RNew *)
+    destruct (n <=? 0)%Z eqn:Zn.
+    + unfold ring_New. rewrite Zn. apply Z.leb_le in Zn.
+      replace (Z.to_nat n) with 0 by lia. cbn [bind setvals_loop]. unfold rret_ptr, rs_ret. cbn [bind fst snd radd_handle].
+      exists h. split; [reflexivity|auto].
+    + apply Z.leb_gt in Zn. destruct (RNew_sim h a n v0 R Zn) as (h' & E & R' & L).
+      unfold rret_ptr, rs_ret. rewrite E. cbn [bind fst snd].
+      exists h'. split; [reflexivity|]. split; [exact R'|].
+      apply RHok_add; [eapply RHok_mono; eauto|].
+      intros e Ee; injection Ee as <-. apply (RR_alloc _ _ R'). cbn [ra_cycles concat]. apply in_or_app. left.
+      apply in_seq. lia.
+  - (* RNext *)
+    destruct (rhnd t r) as [r0|] eqn:Eh; [|cbn [rs_panic fst snd]; exists h; split; [reflexivity|auto]].
+    assert (Hr : r0 < length h) by (eapply rhnd_lt; eauto).
+    destruct (touch_sim2 _ _ _ R Hr) as (h' & E & _ & R' & L & N' & _).
+    unfold rret_ptr, rs_ret. rewrite E. cbn [bind fst snd].
+    exists h'. split; [reflexivity|]. split; [exact R'|].
+    apply RHok_add; [eapply RHok_mono; [|exact HK]; lia|].
+    intros e Ee; injection Ee as <-. eapply RRep_ptr_lt; eauto.
+  - (* RPrev *)
+    destruct (rhnd t r) as [r0|] eqn:Eh; [|cbn [rs_panic fst snd]; exists h; split; [reflexivity|auto]].
+    assert (Hr : r0 < length h) by (eapply rhnd_lt; eauto).
+    destruct (touch_sim2 _ _ _ R Hr) as (h' & _ & E & R' & L & _ & P' & _).
+    unfold rret_ptr, rs_ret. rewrite E. cbn [bind fst snd].
+    exists h'. split; [reflexivity|]. split; [exact R'|].
+    apply RHok_add; [eapply RHok_mono; [|exact HK]; lia|].
+    intros e Ee; injection Ee as <-. eapply RRep_ptr_lt; eauto.
+  - (* RMove *)
+    destruct (rhnd t r) as [r0|] eqn:Eh; [|cbn [rs_panic fst snd]; exists h; split; [reflexivity|auto]].
+    assert (Hr : r0 < length h) by (eapply rhnd_lt; eauto).
+    destruct (Move_sim h a r0 n R Hr) as (h' & E & R' & L & I').
+    unfold rret_ptr, rs_ret. rewrite E. cbn [bind fst snd].
+    exists h'. split; [reflexivity|]. split; [exact R'|].
+    apply RHok_add; [eapply RHok_mono; [|exact HK]; lia|].
+    intros e Ee; injection Ee as <-. apply (RR_alloc _ _ R'). exact I'.
+  - (* RLink *)
+    destruct (rhnd t r) as [r0|] eqn:Eh; [|cbn [rs_panic fst snd]; exists h; split; [reflexivity|auto]].
+    assert (Hr : r0 < length h) by (eapply rhnd_lt; eauto).
+    assert (Hsucc : forall h' cs', RRep h' (RA cs' (ra_vals a)) -> length h' = length h ->
+                    (forall j, In j (concat (a_touch (ra_cycles a) r0)) -> In j (concat cs')) ->
+                    a_succ (ra_cycles a) r0 < length h').
+    { intros h' cs' R' L' Sub. apply (RR_alloc _ _ R'). cbn [ra_cycles]. apply Sub.
+      destruct (touch_sim2 _ _ _ R Hr) as (h1 & _ & _ & R1 & _ & N1 & _).
+      assert (I1 : In r0 (concat (a_touch (ra_cycles a) r0))) by (rewrite in_a_touch; auto).
+      destruct (member_links _ _ _ R1 I1) as (_ & _ & I2 & _). cbn [ra_cycles] in I2.
+      rewrite a_succ_touch in I2. exact I2. }
+    destruct (rhnd t s) as [s0|] eqn:Ehs.
+    + assert (Hs : s0 < length h) by (eapply rhnd_lt; eauto).
+      destruct (Link_sim h a r0 s0 R Hr Hs) as (h' & E & R' & L).
+      unfold rret_ptr, rs_ret. rewrite E. cbn [bind fst snd].
+      exists h'. split; [reflexivity|]. split; [exact R'|].
+      apply RHok_add; [eapply RHok_mono; [|exact HK]; lia|].
+      intros e Ee; injection Ee as <-.
+      destruct (touch_sim2 _ _ _ R Hr) as (h1 & _ & _ & R1 & L1 & N1 & _).
+      assert (a_succ (ra_cycles a) r0 < length h1) by (eapply RRep_ptr_lt; eauto). lia.
+    + destruct (Link_nil_sim h a r0 R Hr) as (h' & E & R' & L).
+      unfold rret_ptr, rs_ret. rewrite E. cbn [bind fst snd].
+      exists h'. split; [reflexivity|]. split; [exact R'|].
+      apply RHok_add; [eapply RHok_mono; [|exact HK]; lia|].
+      intros e Ee; injection Ee as <-.
+      destruct (touch_sim2 _ _ _ R Hr) as (h1 & _ & _ & R1 & L1 & N1 & _).
+      assert (a_succ (ra_cycles a) r0 < length h1) by (eapply RRep_ptr_lt; eauto). lia.
+  - (* RUnlink *)
+    destruct (n <=? 0)%Z eqn:Zn.
+    + unfold ring_Unlink. rewrite Zn. unfold rret_ptr, rs_ret. cbn [bind fst snd radd_handle]. exists h. split; [reflexivity|auto].
+    + destruct (rhnd t r) as [r0|] eqn:Eh.
+      * assert (Hr : r0 < length h) by (eapply rhnd_lt; eauto). apply Z.leb_gt in Zn.
+        destruct (Unlink_sim h a r0 n R Hr Zn) as (h' & E & R' & L).
+        unfold rret_ptr, rs_ret. rewrite E. cbn [bind fst snd].
+        exists h'. split; [reflexivity|]. split; [exact R'|].
+        apply RHok_add; [eapply RHok_mono; [|exact HK]; lia|].
+        intros e Ee; injection Ee as <-. rewrite a_succ_touch.
+        destruct (touch_sim2 _ _ _ R Hr) as (h1 & _ & _ & R1 & L1 & N1 & _).
+        assert (a_succ (ra_cycles a) r0 < length h1) by (eapply RRep_ptr_lt; eauto). lia.
+      * unfold ring_Unlink. rewrite Zn. cbn [rs_panic fst snd]. exists h. split; [reflexivity|auto].
+  - (* RLen *)
+    destruct (rhnd t r) as [r0|] eqn:Eh; [|exists h; split; [reflexivity|auto]].
+    assert (Hr : r0 < length h) by (eapply rhnd_lt; eauto).
+    destruct (LenDo_sim h a r0 R Hr) as (h' & E & _ & R' & L).
+    rewrite E. cbn [bind fst snd].
+    exists h'. split; [reflexivity|]. split; [exact R'|]. eapply RHok_mono; [|exact HK]; lia.
+  - (* RDo *)
+    destruct (rhnd t r) as [r0|] eqn:Eh; [|exists h; split; [reflexivity|auto]].
+    assert (Hr : r0 < length h) by (eapply rhnd_lt; eauto).
+    destruct (LenDo_sim h a r0 R Hr) as (h' & _ & E & R' & L).
+    rewrite E. cbn [bind fst snd].
+    exists h'. split; [reflexivity|]. split; [exact R'|]. eapply RHok_mono; [|exact HK]; lia.
+Qed.
+
+Lemma RRep_init : RRep [] init_rastate.
+Proof.
+  constructor; cbn.
+  - split; auto. intros j Hj. lia.
+  - intros c [].
+  - constructor.
+  - intros j [].
+  - intros j _. unfold rnx, rpv, rproj. destruct j; auto.
+Qed.
+
+Lemma rrun_from_sim ops : forall h a t,
+  RRep h a -> RHok h t ->
+  exists h', rrun_from (RRState h t) ops =
+             (fst (fst (rspec_run_from a t ops)), RRState h' (snd (rspec_run_from a t ops))) /\
+             RRep h' (snd (fst (rspec_run_from a t ops))) /\ RHok h' (snd (rspec_run_from a t ops)).
+Proof.
+  induction ops as [|op ops IH]; intros h a t R HK; cbn [rrun_from rspec_run_from].
+  - cbn [fst snd]. eauto.
+  - destruct (rexec_sim op h a t R HK) as (h1 & E1 & R1 & HK1). rewrite E1.
+    destruct (rspec_exec op a t) as [[o a1] t1]. cbn [fst snd] in *.
+    destruct (IH h1 a1 t1 R1 HK1) as (h2 & E2 & R2 & HK2). rewrite E2.
+    destruct (rspec_run_from a1 t1 ops) as [[os a2] t2]. cbn [fst snd] in *. eauto.
+Qed.
+
+(* The pointer model of lists.Ring refines the cycle semantics on every history. *)
+Theorem ring_refines_spec ops :
+  exists h, rrun ops = (fst (fst (rspec_run ops)), RRState h (snd (rspec_run ops))) /\
+            RRep h (snd (fst (rspec_run ops))).
+Proof.
+  destruct (rrun_from_sim ops [] init_rastate [] RRep_init (fun e (I : In e []) => match I with end)) as (h & E & R & _).
+  eauto.
+Qed.
+
+
+(* ---- the invariant spelled out ---- *)
+Lemma chain_first_pv nx pv a xs b : chain nx pv a xs b -> pv (hd b xs) = Some a.
+Proof. destruct xs; simpl; tauto. Qed.
+
+Lemma chain_last_nx nx pv a xs b : chain nx pv a xs b -> nx (last xs a) = Some b.
+Proof.
+  revert a; induction xs as [|x t IH]; intro a; [simpl; tauto|].
+  intros (_ & _ & C). rewrite last_cons. auto.
+Qed.
+
+(* next and prev are mutually inverse on the initialised nodes, stay inside the
+   heap, and a node is either fully initialised or a zero Ring *)
+Theorem RRep_wf h a : RRep h a ->
+  (forall i n, rnx h i = Some n -> n < length h /\ rpv h n = Some i) /\
+  (forall i p, rpv h i = Some p -> p < length h /\ rnx h p = Some i) /\
+  (forall i, rnx h i = None <-> rpv h i = None).
+Proof.
+  intro R. split; [|split].
+  - intros i n E. split; [eapply RRep_ptr_lt; eauto|].
+    assert (I : In i (concat (ra_cycles a))) by (apply (RRep_init_iff _ _ _ R); congruence).
+    destruct (RRep_member _ _ _ R I) as (pre & post & p & q & _ & _ & C & _).
+    rewrite (chain_first _ _ _ _ _ C) in E. injection E as <-. eapply chain_first_pv; eauto.
+  - intros i p E. split; [eapply RRep_ptr_lt; eauto|].
+    assert (I : In i (concat (ra_cycles a))).
+    { destruct (in_dec Nat.eq_dec i (concat (ra_cycles a))); auto.
+      destruct (RR_zero _ _ R i n). congruence. }
+    destruct (RRep_member _ _ _ R I) as (pre & post & p0 & q & _ & _ & C & _).
+    rewrite (chain_last _ _ _ _ _ C) in E. injection E as <-. eapply chain_last_nx; eauto.
+  - intro i. destruct (in_dec Nat.eq_dec i (concat (ra_cycles a))) as [I|N].
+    + destruct (member_links _ _ _ R I) as (A & B & _). rewrite A, B. split; discriminate.
+    + destruct (RR_zero _ _ R i N) as [-> ->]. tauto.
+Qed.
+
+Theorem ring_wf ops :
+  let h := rh (snd (rrun ops)) in
+  (forall i n, rnx h i = Some n -> n < length h /\ rpv h n = Some i) /\
+  (forall i p, rpv h i = Some p -> p < length h /\ rnx h p = Some i) /\
+  (forall i, rnx h i = None <-> rpv h i = None).
+Proof.
+  destruct (ring_refines_spec ops) as (h & E & R). rewrite E. cbn [snd rh]. eapply RRep_wf; eauto.
+Qed.
+
+(* ---- the relinking of Link, case by case (what the documentation says) ---- *)
+Theorem a_link_cases cs r A rest :
+  ext cs r = (r :: A, rest) ->
+  (* Link(r, r): r becomes a one-element ring, the rest of its ring stays a ring *)
+  a_link cs r r = [r] :: cons_ne A rest /\
+  (* s in the same ring: the nodes A1 strictly between r and s are cut out and form a ring *)
+  (forall s A1 B, s <> r -> A = A1 ++ s :: B -> ~ In s A1 ->
+     a_link cs r s = (r :: s :: B) :: cons_ne A1 rest) /\
+  (* s in another ring s :: B: that ring is inserted after r *)
+  (forall s B rest2, s <> r -> ~ In s A -> ext rest s = (s :: B, rest2) ->
+     a_link cs r s = (r :: s :: B ++ A) :: rest2).
+Proof.
+  intro E. unfold a_link. rewrite E. cbn [tl]. split; [|split].
+  - rewrite Nat.eqb_refl. reflexivity.
+  - intros s A1 B N EA NA. apply Nat.eqb_neq in N. rewrite N, EA, split_at_split by auto. reflexivity.
+  - intros s B rest2 N NA E2. apply Nat.eqb_neq in N. rewrite N.
+    destruct (split_at s A) as [[A1 B1]|] eqn:Es.
+    + exfalso. apply NA. destruct (split_at_Some _ _ _ _ Es) as [-> _]. apply in_or_app. simpl; auto.
+    + rewrite E2. reflexivity.
+Qed.
